@@ -118,6 +118,8 @@ impl<'a> Cur<'a> {
             let k = self.u8();
             let ch = match k % 16 {
                 0 => '\0',
+                6 => ' ',
+                7 => ['\t', '\n', '\r', '\u{7f}'][(k >> 4) as usize % 4],
                 1 if room >= 2 => 'é',
                 2 if room >= 3 => '€',
                 3 if room >= 4 => '😀',
@@ -218,7 +220,18 @@ fn fci(c: &mut Cur, inv: bool) -> FciSpec {
                 20..=219 => 1 + (c.u8() % 5) as usize,
                 _ => 20 + (c.u8() % 20) as usize,
             };
-            FciSpec::Sli((0..n).map(|_| (c.v16() & 0x1fff, c.v16() & 0x1fff, c.u8() & 0x3f)).collect())
+            // neighbours are related (repeat / continuation of the previous run) often enough to matter
+            let mut v: Vec<(u16, u16, u8)> = Vec::with_capacity(n);
+            for _ in 0..n {
+                let e = match (c.u8() % 10, v.last().copied()) {
+                    (0, Some(prev)) => prev,
+                    (1, Some((pa, pn, pp))) => (pa.wrapping_add(pn) & 0x1fff, c.v16() & 0x1fff, pp),
+                    (2, Some((pa, _, pp))) => (pa, c.v16() & 0x1fff, pp),
+                    _ => (c.v16() & 0x1fff, c.v16() & 0x1fff, c.u8() & 0x3f),
+                };
+                v.push(e);
+            }
+            FciSpec::Sli(v)
         }
         8..=11 => {
             let pt = match c.u8() {
@@ -416,7 +429,7 @@ pub fn compound(c: &mut Cur, inv: bool, pad_only_last: bool) -> PacketSpec {
 
 pub fn how(c: &mut Cur) -> How {
     let b = c.u8();
-    How { fb_owned: b & 1 != 0, wrap: b & 2 != 0, single_compound: b & 0x1c == 0x1c, owned: b & 0x60 == 0x60 }
+    How { fb_owned: b & 1 != 0, wrap: b & 2 != 0, single_compound: b & 0x1c == 0x1c, owned: b & 0x60 == 0x60, probe: b & 0x80 != 0 }
 }
 
 /// any packet spec: leaf (mostly) or compound
